@@ -5,20 +5,23 @@ from common import Check, assert_repo_import, eval_cases, eval_one, canon_tree, 
 import lang_common as LC
 import progen
 
-IMPORTS = "Base Token TokEngine Lex Headers Blocks Pairing Fold ScanFile Spec HeaderSpec SpecCheck LexShapes SpecCheckAll"
+IMPORTS = "Base Token TokEngine Lex Headers Blocks Pairing Fold ScanFile Spec HeaderSpec SpecCheck LexShapes SpecCheckAll PySpec PySpecCheck PyLexical"
 LEXICAL = ("C", "Cpp", "CSharp", "Java", "JavaScript", "TypeScript")   # brace languages: Scope/HeaderSpec.v, LexShapes.v
+
+
+def _sym(t, s):
+    return LC.kind_code(t.token_type) == 2 and t.value == s          # a Punctuation token with this text
 
 
 def groups_end(code, p):
     """end of the maximal run of balanced parenthesis groups starting at p (None when no "(" there)"""
-    if p >= len(code) or code[p].value != "(":
+    if p >= len(code) or not _sym(code[p], "("):
         return None
     j, depth = p, 0
     while j < len(code):
-        v = code[j].value
         if depth > 0:
-            depth += 1 if v == "(" else -1 if v == ")" else 0
-        elif v == "(":
+            depth += 1 if _sym(code[j], "(") else -1 if _sym(code[j], ")") else 0
+        elif _sym(code[j], "("):
             depth = 1
         else:
             break
@@ -50,10 +53,38 @@ def descs_brace(lang, code, expected):
         if hend is None:
             return None
         o = hend
-        while o < len(code) and code[o].value != "{":
+        while o < len(code) and not _sym(code[o], "{"):
             o += 1
         ds.append((n, s, hend, o, c))
     return ds
+
+
+def descs_python(code, expected):
+    """descriptors (name, start, header end, suite start, suite end) of the generator's Python functions"""
+    pos = {(t.location.line, t.location.column): i for i, t in enumerate(code)}
+    endpos = {(t.location.line, t.location.column + len(t.value)): i for i, t in enumerate(code) if "\n" not in t.value}
+    ds = []
+    for e in expected:
+        s = pos.get(tuple(e["start"]))
+        c = endpos.get(tuple(e["end"]))
+        if s is None or c is None:
+            return None
+        n = s + 2 if code[s].value == "async" else s + 1
+        hend = groups_end(code, n + 1)
+        if hend is None or hend >= len(code):
+            return None
+        b = hend
+        while b < len(code) and code[b].location.line <= code[hend].location.line:
+            b += 1
+        ds.append((n, s, hend, b, c + 1))
+    return ds
+
+
+def py_spec_expr(toklit, ds):
+    dl = "[" + "; ".join(f"mkPd {a} {b} {c} {d} {e}" for a, b, c, d, e in ds) + "]"
+    return (f"(let code := filter_tokens false {toklit} in let ds := {dl} in "
+            "T [enc_bool (py_wf_descs_b code ds); enc_bool (py_lexically_canonical_b code ds); "
+            "enc_scan (py_expected_all code ds ds)])")
 
 
 def spec_expr(li, toklit, ds):
@@ -97,6 +128,9 @@ def _work(args):
         ds = None
         if toks is not None and lang in LEXICAL and exp:
             ds = descs_brace(lang, LC.impl_lex(lang, text, keep_comments=False), p["expected"])
+        elif toks is not None and lang == "Python" and exp and "line-continuation" not in p["features"]:
+            # C01_python is stated for programs without backslash continuations
+            ds = descs_python(LC.impl_lex(lang, text, keep_comments=False), p["expected"])
         out.append((seed, r, probs, nontrivial, p["features"], len(exp),
                     LC.tokens_lit(toks) if toks is not None else None, text if probs else None, ds, exp))
     return lang, out
@@ -105,7 +139,7 @@ def _work(args):
 def run(tier, seed, replay=None):
     assert_repo_import()
     chk = Check("C01", tier, seed)
-    model_ok = chk.proof_stage(["Scope/ScanFile.vo", "Scope/SpecProofs.vo", "Scope/SpecCheck.vo", "Scope/HeaderProofs.vo", "Scope/ShapeProofs.vo", "Scope/SpecCheckAll.vo"])
+    model_ok = chk.proof_stage(["Scope/ScanFile.vo", "Scope/SpecProofs.vo", "Scope/SpecCheck.vo", "Scope/HeaderProofs.vo", "Scope/ShapeProofs.vo", "Scope/SpecCheckAll.vo", "Scope/PyLexical.vo"])
     n_prog = 400 if tier == "quick" else 12000
     base = seed * 1000003
     jobs = []
@@ -140,7 +174,8 @@ def run(tier, seed, replay=None):
                     if ds is not None:
                         # the hypotheses of C01_brace / C01_flat, decided inside Coq for this program, and
                         # the theorem's right-hand side against the generator's expectation
-                        spec_cases.append((spec_expr(li, toklit, ds), [1, 1, [0, exp]], case))
+                        spec_cases.append(((py_spec_expr(toklit, ds) if lang == "Python" else spec_expr(li, toklit, ds)),
+                                           [1, 1, [0, exp]], case))
     chk.samples = [c for _, _, c in model_cases[:3]]
     if model_ok:
         mism, err = eval_cases("C01", IMPORTS, [(m, o) for m, o, _ in model_cases], shard=20)
@@ -152,7 +187,7 @@ def run(tier, seed, replay=None):
             chk.broken.append(f"correspondence: scan_file model and implementation differ on {model_cases[i][2]}: "
                               f"model {got} vs implementation {canon_tree(model_cases[i][1])}")
         mism, err = eval_cases("C01s", IMPORTS, [(m, o) for m, o, _ in spec_cases], shard=8)
-        chk.count("programs whose theorem hypotheses (wf_descs, lexically_canonical) were decided in Coq", len(spec_cases))
+        chk.count("programs whose theorem hypotheses (wf_descs / py_wf_descs, lexical condition) were decided in Coq", len(spec_cases))
         if err:
             chk.broken.append("specification evaluation failed: " + err[-400:])
         for i in mism[:5]:
